@@ -922,6 +922,22 @@ instance (dt : DType F) (o r : PVal F) : Decidable (ConvDenotes dt o r) := decCo
 /-- monitor of "the converted value denotes the value handed over" -/
 def convDenotesB (dt : DType F) (o r : PVal F) : Bool := decide (ConvDenotes dt o r)
 
+/-- the conversion-only path `dt(o)` (driver updates, results of `read_*` and of commands, configured values): a value
+of the type that denotes the value handed over, or a bad-value error; never anything else -/
+def ConvOK (dt : DType F) (o : PVal F) : Outcome F → Prop
+  | .ok r => OfType dt r ∧ ConvDenotes dt o r
+  | .bad => True
+  | .other _ => False
+
+/-- monitor of `ConvOK`, plus "converting the converted value again returns it unchanged" -/
+def judgeConv (dt : DType F) (o : PVal F) (call : Outcome F) (recall : Option (Outcome F)) : List String :=
+  match call with
+  | .ok r =>
+    (if ofTypeB dt r then [] else ["oftype:call"]) ++ (if convDenotesB dt o r then [] else ["denotes:call"]) ++
+    (match recall with | some x => if x.returns r then [] else ["idem:call"] | none => ["idem:missing"])
+  | .other _ => ["total:call"]
+  | .bad => []
+
 /-- what `Command.do` returned (`out`) for a command with declared result type `resT` (`none`: no result type — the
 return value of the function is ignored and `None` handed back) whose function returned `ret`: a value of the result
 type that denotes `ret`, or a bad-value error; never anything else — in particular never the driver's `None` for a
